@@ -61,6 +61,15 @@ partial def jTree : PTree → Json
 
 def cfgFuel : Nat := 100000
 
+/-- the cleaned grammar on which `to_normal_form` finally runs its fast path (harness helper: its
+variables are the names that fresh binarisation variables must avoid) -/
+def cnfBase (G : CFG) : Nat → Option CFG
+  | 0 => none
+  | fuel+1 =>
+    if G.isFastPath then some G
+    else if G.prods.length = 0 then some G
+    else cnfBase (G.removeUseless.removeEpsilon.removeUseless.elimUnit.removeUseless) fuel
+
 def jComp : Codec.Comp → Json
   | .var v => Json.arr #[jStr "v", jStr (String.ofList v)]
   | .ter t => Json.arr #[jStr "t", jStr (String.ofList t)]
@@ -124,6 +133,7 @@ def cfgHandle (op : String) (j : Json) : R Json := do
     | "removeEpsilon" => pure (jCFG G.removeEpsilon)
     | "elimUnit" => pure (jCFG G.elimUnit)
     | "toNormalForm" => pure (jOpt jCFG (G.toNormalForm 10))
+    | "cnfBase" => pure (jOpt jCFG (cnfBase G 10))
     | "reverse" => pure (jCFG G.reverse)
     | "closure" => pure (jCFG G.closure)
     | "posClosure" => pure (jCFG G.posClosure)
